@@ -151,13 +151,20 @@ def call(fn, spell, ops, p, kw):
     raise ValueError("unknown fn " + fn)
 
 
+OBSERVE_ERRORS = []
+
+
 def observe(env):
     out = {}
     for name, t in env.t.items():
         if not isinstance(t, mg.Tensor):
             continue
         g = t._grad
-        pg = t.grad
+        try:
+            pg = t.grad
+        except Exception as e:  # reading a gradient must never raise: reported by the harness as a violation
+            OBSERVE_ERRORS.append("reading %s.grad raised %s: %s" % (name, type(e).__name__, str(e)[:120]))
+            pg = None
         out[name] = {
             "grad": None if g is None else ints(g),
             "pub_grad": None if pg is None else ints(pg),
@@ -175,10 +182,33 @@ def observe(env):
     return out
 
 
+def families(env):
+    """memory relations between the named tensors: which pairs share memory, and each tensor's .base"""
+    names = [n for n, t in env.t.items() if isinstance(t, mg.Tensor)]
+    share = []
+    for i, a in enumerate(names):
+        for b in names[i + 1:]:
+            if np.shares_memory(env.t[a].data, env.t[b].data):
+                share.append([a, b])
+    base = {}
+    for n in names:
+        bt = env.t[n].base
+        if bt is None:
+            base[n] = None
+        else:
+            hit = [m for m in names if env.t[m] is bt]
+            base[n] = hit[0] if hit else "internal"
+    return {"share": share, "base": base}
+
+
 def run_case(case):
     reset_global_state()
+    if case.get("guard") is False:
+        mg.turn_memory_guarding_off()
     env = Env()
     outcomes, observations = [], []
+    identity_lost = []
+    ids = {}
     dead_refs = {}
     mode = case.get("observe", "backward")
     for i, s in enumerate(case["stmts"]):
@@ -211,6 +241,31 @@ def run_case(case):
                 env.t[s["t"]].clear_graph()
             elif k == "null_grad":
                 env.t[s["t"]].null_grad()
+            elif k == "setitem":
+                env.t[s["t"]][py_index(s["index"])] = env.operand(s["value"])
+            elif k == "aug":
+                x = env.t[s["t"]]
+                v = env.operand(s["value"])
+                if s["fn"] == "add":
+                    x += v
+                elif s["fn"] == "subtract":
+                    x -= v
+                elif s["fn"] == "multiply":
+                    x *= v
+                else:
+                    raise ValueError(s["fn"])
+                if x is not env.t[s["t"]]:
+                    identity_lost.append(s["t"])
+                del x, v
+            elif k == "out":
+                ops = [env.operand(o) for o in s["args"]]
+                kw = {}
+                if s.get("where") is not None:
+                    kw["where"] = np.asarray(s["where"]["mask"], dtype=bool).reshape(s["where"]["shape"])
+                r = getattr(mg, s["fn"])(*ops, out=env.t[s["t"]], **kw)
+                if r is not env.t[s["t"]]:
+                    identity_lost.append(s["t"])
+                del ops, r
             elif k == "del":
                 for n in s["names"]:
                     if case.get("liveness") and isinstance(env.t.get(n), mg.Tensor):
@@ -223,9 +278,14 @@ def run_case(case):
             if exc in ("Other",):
                 exc = "Other:%s:%s" % (type(e).__name__, str(e)[:200])
         outcomes.append(exc)
+        for n, t in env.t.items():
+            if isinstance(t, mg.Tensor):
+                if n in ids and ids[n] != id(t):
+                    identity_lost.append(n)
+                ids[n] = id(t)
         if mode == "all" or (mode == "backward" and k in ("backward", "clear", "null_grad")):
-            observations.append({"after": i + 1, "obs": observe(env)})
-    observations.append({"after": len(case["stmts"]), "obs": observe(env)})
+            observations.append({"after": i + 1, "obs": observe(env), "fam": families(env) if case.get("families") else None})
+    observations.append({"after": len(case["stmts"]), "obs": observe(env), "fam": families(env) if case.get("families") else None})
     alive = None
     if case.get("liveness"):
         # reference-counting alone (gc is disabled): drop every name the caller does not keep
@@ -237,7 +297,9 @@ def run_case(case):
                 del env.t[n]
         alive = {n: (r() is not None) for n, r in wr.items()}
     env.t.clear()
-    return {"outcomes": outcomes, "observations": observations, "alive": alive}
+    errs = list(OBSERVE_ERRORS)
+    del OBSERVE_ERRORS[:]
+    return {"outcomes": outcomes, "observations": observations, "alive": alive, "identity_lost": identity_lost, "observe_errors": errs}
 
 
 def run_repeat(case):
